@@ -58,8 +58,10 @@ def unit():
     m.ensures("result == self._created_files[ite(item < 0, item + len(self._created_files), item)]")
     m = P.method("__enter__", {}, RefS("TmpPool"))
     m.modifies("self._manager", "self._created_files")
-    m.requires("len(self._created_files) == 0")
-    m.ensures("result == self and len(self._created_files) == 0")
+    # files may have been created before the context is entered: a single-process pool keeps listing them (a multi-process pool swaps
+    # in the manager's shared list - entered empty, as every use in the repository does)
+    m.requires("implies(self._multi_proc, len(self._created_files) == 0)", "a-multi-process-pool-is-entered-before-anything-is-created")
+    m.ensures("result == self and self._created_files == old(self._created_files)", "entering-the-context-forgets-no-created-file")
     m = P.method("create", {}, STR)
     m.modifies("self._created_files", "FileSystem.exists[*]", "FileSystem.ever[*]")
     m.ensures("fs().exists[result] and not old(listed(self, result))", "a-distinct-existing-file")
